@@ -15,7 +15,7 @@ def dispatch (st : St) (j : Json) : St × Json :=
       let (s, r) ← dbOp st.dbs op j
       return ({ st with dbs := s }, r)
     else if op.startsWith "met." then return (st, ← metricsOp op j)
-    else if op.startsWith "fpr." then return (st, ← fprinterOp op j)
+    else if op.startsWith "fpr." || op.startsWith "fpo." then return (st, ← fprinterOp op j)
     else .error s!"unknown op {op}" : Except String (St × Json)) with
   | .ok r => r
   | .error e => (st, Json.mkObj [("driver_error", e)])
